@@ -12,7 +12,7 @@ RULE = ("histories = sequences over {write small / large (>= interval) / zero-by
         "stdlib decompression) and the raised/ok status; after every flush: the list read back by fastavro.reader vs the submitted records; "
         "non-trivial = history with a flush after at least one successful submission; distinct by history")
 TRUSTED = c04.TRUSTED
-ASSUMPTIONS = ["appending is exercised on seekable in-memory streams (and real files opened a+b in thorough)"]
+ASSUMPTIONS = ["appending is exercised on seekable in-memory streams and on real files opened a+b (corr:real-file-append)"]
 PARTIAL = []
 
 SCHEMAS = [
@@ -119,6 +119,14 @@ def make_donor(rng, raw, parsed, named):
     return out
 
 
+SHADOW_SCHEMA = {"type": "record", "name": "ShadowRec", "fields": [{"name": "i", "type": "long"}, {"name": "t", "type": "string"}]}
+SHADOW_RESULT = []
+
+
+def rng_shadow_interval(n):
+    return [1, 40, 16000][n % 3]
+
+
 def run_impl(raw, parsed, codec, si0, sync, ops, meta0=None):
     """returns list of (status, stream bytes after the op)"""
     import fastavro
@@ -127,7 +135,16 @@ def run_impl(raw, parsed, codec, si0, sync, ops, meta0=None):
     w = Writer(fo, parsed, codec=codec, sync_interval=si0, sync_marker=sync, metadata=(dict(meta0) if meta0 is not None else None))
     hdr = fo.getvalue()
     trace = []
-    for op in ops:
+    # a second, unrelated writer is alive on another stream during the whole history and is fed one record per operation:
+    # neither stream may see anything of the other (records pending in one writer are that writer's own)
+    fo2 = io.BytesIO()
+    shadow = Writer(fo2, SHADOW_SCHEMA, codec="null", sync_interval=rng_shadow_interval(len(ops)))
+    SHADOW_RESULT.clear()
+    for k, op in enumerate(ops):
+        try:
+            shadow.write({"i": k, "t": "shadow"})
+        except Exception as e:
+            SHADOW_RESULT.append("shadow write raised " + type(e).__name__)
         st = "ok"
         try:
             if op[0] == "write":
@@ -150,6 +167,13 @@ def run_impl(raw, parsed, codec, si0, sync, ops, meta0=None):
         w.flush()
     except Exception:
         pass
+    try:
+        shadow.flush()
+        t2, out2 = K.impl_read_file(fo2.getvalue())
+        if not t2.endswith("|END") or out2 != [{"i": k, "t": "shadow"} for k in range(len(ops))]:
+            SHADOW_RESULT.append("the other writer's file reads back as %s" % t2[:300])
+    except Exception as e:
+        SHADOW_RESULT.append("shadow flush raised " + type(e).__name__)
     return hdr, trace, fo.getvalue()
 
 
@@ -165,10 +189,67 @@ def model_ops(ops):
     return out
 
 
+def real_file_family(ctx):
+    """corr:real-file-append: histories on REAL files opened in append mode ("a+b"), including a path that is re-created with
+    another schema / codec / marker and appended to again: after every session the file reads back as the records submitted
+    to THAT file, and every block ends with the marker its own header announces (independent splitter)."""
+    import fastavro, os, tempfile, shutil
+    rng = ctx.rng
+    A = fastavro.parse_schema({"type": "record", "name": "FileA", "fields": [{"name": "a", "type": "long"}, {"name": "s", "type": "string"}]})
+    B = fastavro.parse_schema({"type": "record", "name": "FileB", "fields": [{"name": "b", "type": ["null", "double"]}, {"name": "k", "type": "bytes"}]})
+    d = tempfile.mkdtemp(prefix="c07f_", dir=ctx.workdir)
+    try:
+        for it in range(4 if ctx.quick() else 60):
+            path = os.path.join(d, "data_%d.avro" % (it % 2))          # two paths, each re-created several times
+            expect, sessions = [], []
+            for gen_i in range(rng.choice([2, 3])):                    # generations of the file at this path
+                schema = [A, B][(it + gen_i) % 2]
+                mk = (lambda i: {"a": i, "s": "r%d" % i}) if schema is A else (lambda i: {"b": [None, i / 2][i % 2], "k": bytes([i % 256]) * (i % 4)})
+                codec, marker = rng.choice(K.CODECS), bytes(rng.randrange(256) for _ in range(16))
+                expect = []
+                for sess in range(rng.choice([1, 2, 3])):
+                    recs = [mk(rng.randrange(1000)) for _ in range(rng.choice([0, 1, 3, 20]))]
+                    mode = "wb" if sess == 0 else "a+b"
+                    kw = dict(codec=codec, sync_marker=marker) if sess == 0 else \
+                        dict(codec=rng.choice(K.CODECS), sync_marker=rng.choice([None, bytes(16), b"\x09" * 16]), sync_interval=rng.choice([1, 100, 16000]))
+                    kw = {k: v for k, v in kw.items() if v is not None}
+                    sessions.append((path, mode, codec, len(recs)))
+                    try:
+                        with open(path, mode) as fo:
+                            fastavro.writer(fo, schema, recs, **kw)
+                    except Exception as e:
+                        ctx.violation("corr:real-file-append", dict(real_file=True, sessions=repr(sessions)), impl="writer raised " + type(e).__name__ + ": " + str(e)[:200],
+                                      model="appends", signature="C07:real-file:append-raises", found_input=True)
+                        return
+                    expect += recs
+                    data = open(path, "rb").read()
+                    t, out = K.impl_read_file(data)
+                    ctx.count("corr:real-file-append", (it, gen_i, sess), nontrivial=bool(expect))
+                    ok = t.endswith("|END") and out == expect
+                    why = "" if ok else "reads back as %s, expected %d records" % (t[-60:], len(expect))
+                    if ok:
+                        try:
+                            hl, meta, sync = K.split_header(data)
+                            blocks = K.split_blocks(data, hl)
+                            cname = meta.get(b"avro.codec", meta.get("avro.codec", b"null"))
+                            cname = cname.decode() if isinstance(cname, bytes) else cname
+                            if sync != marker or cname != codec or any(b[2] != sync for b in blocks):
+                                ok, why = False, "header or block markers are not those the file was created with"
+                        except Exception as e:
+                            ok, why = False, "independent splitter failed: " + type(e).__name__
+                    if not ok:
+                        ctx.violation("corr:real-file-append", dict(real_file=True, sessions=repr(sessions)), impl=why, model="records submitted to this file, in order; header kept",
+                                      signature="C07:real-file:append-does-not-read-back-as-submitted", found_input=True)
+                        return
+    finally:
+        shutil.rmtree(d, ignore_errors=True)
+
+
 def run(ctx):
     import fastavro
     rng = ctx.rng
     quick = ctx.quick()
+    real_file_family(ctx)
     parsed_pool = []
     for raw in SCHEMAS:
         named = {}
@@ -212,6 +293,9 @@ def run(ctx):
         hdr_i, trace, final = run_impl(j["raw"], j["parsed"], j["codec"], j["si"], j["sync"], j["ops"], j.get("meta0"))
         case = dict(schema=j["raw"], codec=j["codec"], sync_interval=j["si"], sync=j["sync"].hex(), kinds=j["kinds"], metadata_at_creation=j.get("meta0"),
                     ops=[(o[0],) + tuple(repr(x)[:200] for x in o[1:3]) for o in j["ops"]])
+        if SHADOW_RESULT:
+            ctx.violation("corr:writer-trace", case, impl="; ".join(SHADOW_RESULT)[:600], model="a second writer on another stream is unaffected",
+                          signature="C07:history:two-writers-alive:streams-interfere", found_input=True)
         nsub = sum(1 for (st, _), o in zip(steps, j["ops"]) if o[0] in ("write", "block") and st == "ok")
         ctx.count("corr:writer-trace", (repr(j["raw"]), repr(j["ops"])[:3000], j["codec"], j["si"]),
                   nontrivial=nsub > 0)
